@@ -94,15 +94,15 @@ class Driver(object):
         nodes = [[n.index, n.name, [units(ro.occupation, scale) for ro in n.cores],
                   [units(ro.occupation, scale) for ro in n.gpus], n.lfs, n.mem] for n in nl.nodes]
         frr, fn = nl.__last_failed_rr__, nl.__last_failed_n__
-        failed = None
+        failed, torn = None, (frr is None) != (fn is None)      # one of the two set, the other not: only by a race
         if frr is not None:
             failed = [[frr.n_cores, units(frr.core_occupation, scale), frr.n_gpus, units(frr.gpu_occupation, scale),
-                       frr.lfs, frr.mem, bool(frr.numa)], fn]
+                       frr.lfs, frr.mem, bool(frr.numa)], 0 if fn is None else fn]
         ver = None
         if nl.__verified__:
             ver = [True, nl.cores_per_node, nl.gpus_per_node, nl.lfs_per_node, nl.mem_per_node] if nl.uniform \
                 else [False, 0, 0, None, None]
-        return {'nodes': nodes, 'index': nl.__index__, 'failed': failed, 'ver': ver}
+        return {'nodes': nodes, 'index': nl.__index__, 'failed': failed, 'ver': ver, 'torn': torn}
 
     def resolve(self, refs, results):
         """references [j, i] -> the i-th Slot object returned by the j-th call (dropped when there is none)"""
@@ -538,6 +538,9 @@ FIXED_PAIR = [
          a=['rel', [[0, 0]]], b=['find', RR1, 2]),
     # find_slots reads __last_failed_rr__ twice while release_slots resets it
     dict(nodes=plain_nodes(2, 4, 0), ops=[['find', RR2, 1], ['find', RR2, 4]], a=['find', RR1, 1], b=['rel', [[0, 0]]]),
+    # release_slots resets __last_failed_rr__ and __last_failed_n__ one after the other while a find_slots fails
+    dict(nodes=plain_nodes(2, 4, 0), ops=[['find', RR2, 1], ['find', RR2, 1], ['find', RR2, 1]],
+         a=['rel', [[0, 0]]], b=['find', RR2, 3]),
 ]
 PAIR_KS = 120
 
@@ -700,9 +703,13 @@ class AppSlots(Prop):
             if not case.get('disciplined', True):
                 row = '(hd false %s :: repeat true 5%%nat)' % row
             return row
-        return '(pair_row %s %s %s %s %s %s %s %s %s)' % (ns0, ver, ops, c_obs(obs['obs']), c_op(obs['a']),
-                                                         c_op(obs['b']), c_res(obs['ra']), c_res(obs['rb']),
-                                                         c_nl(obs['fin']))
+        row = '(pair_row %s %s %s %s %s %s %s %s %s)' % (ns0, ver, ops, c_obs(obs['obs']), c_op(obs['a']),
+                                                        c_op(obs['b']), c_res(obs['ra']), c_res(obs['rb']),
+                                                        c_nl(obs['fin']))
+        if obs['fin'].get('torn'):
+            # __last_failed_rr__ set and __last_failed_n__ None (or the reverse): no sequential run ends like that
+            row = '(firstn 5 %s ++ [false])' % row
+        return row
 
     def model_show(self, case):
         return None
@@ -726,6 +733,8 @@ class AppSlots(Prop):
             return clause + ':node_without_lfs_or_mem'
         if k == 'pair' and clause == 'linearizable':
             errs = [r[2] for r in (obs['ra'], obs['rb']) if r[0] == 'err' and r[1] in ('EOther', 'EType')]
+            if obs['fin'].get('torn') and not errs:
+                return clause + ':torn_last_failed'
             return clause + (':exception' if errs else ':outcome')
         if k == 'pair' and obs.get('b_blocked'):
             # the second thread waited for a lock of the held one: what follows the release is a free race
